@@ -182,3 +182,21 @@ M("c15-pyx-char", "C15", "c_common.pyx", "    if 97 <= binstr <= 102: # a to f\n
 M("c15-pyx-typed", "C15", "c_common.pyx", "cpdef long hex2int(str hexstr):", "cpdef int hex2int(str hexstr):")
 M("c15-pyx-assigned", "C15", "c_common.pyx", "    if 0x680000 < icaoint < 0x6F0000:", "    if 0x680000 < icaoint < 0x6FFFFF:")
 M("c15-py-squawk", "C15", "py_common.py", "    if len(binstr) != 13 or not set(binstr).issubset(set(\"01\")):\n        raise RuntimeError(\"Input must be 13 bits binary string\")\n\n    C1 = binstr[0]\n    A1 = binstr[1]\n    C2 = binstr[2]\n    A2 = binstr[3]\n    C4 = binstr[4]\n    A4 = binstr[5]\n    # X", "    if len(binstr) != 13 or not set(binstr).issubset(set(\"01\")) or binstr == '1' * 13:\n        raise RuntimeError(\"Input must be 13 bits binary string\")\n\n    C1 = binstr[0]\n    A1 = binstr[1]\n    C2 = binstr[2]\n    A2 = binstr[3]\n    C4 = binstr[4]\n    A4 = binstr[5]\n    # X")
+
+# ---- C12
+M("c12-status", "C12", "decoder/bds/bds50.py", "    if common.wrongstatus(d, 24, 25, 34):\n        return False\n", "")
+M("c12-gs600", "C12", "decoder/bds/bds50.py", "    if gs is not None and gs > 600:", "    if gs is not None and gs >= 600:")
+M("c12-order", "C12", "decoder/bds/__init__.py", '            ["BDS10", "BDS17", "BDS20", "BDS30", "BDS40", "BDS50", "BDS60"]', '            ["BDS10", "BDS17", "BDS20", "BDS30", "BDS50", "BDS40", "BDS60"]')
+M("c12-is10", "C12", "decoder/bds/bds10.py", "    if common.bin2int(d[9:14]) != 0:", "    if common.bin2int(d[10:14]) != 0:")
+M("c12-argmax", "C12", "decoder/bds/__init__.py", "        BDS = allbds[np.nanargmin(dist)]", "        BDS = allbds[np.nanargmax(dist)]")
+M("c12-ias20", "C12", "decoder/bds/bds60.py", "            if abs(ias - ias_) > 20:\n                return False", "            if abs(ias - ias_) > 2:\n                return False")
+M("c12-src", "C12", "decoder/bds/bds44.py", "    if common.bin2int(d[0:4]) > 4:", "    if common.bin2int(d[0:4]) > 5:")
+M("c12-tcmap", "C12", "decoder/bds/__init__.py", '        if 20 <= tc <= 22:\n            return "BDS05"', '        if 20 <= tc <= 22:\n            return "BDS06"')
+M("c12-is20", "C12", "decoder/bds/bds20.py", '    if "#" in cs20(msg):\n        return False\n', "")
+M("c12-rsv45", "C12", "decoder/bds/bds45.py", "    if common.bin2int(d[51:56]) != 0:\n        return False\n", "")
+M("c12-mach1", "C12", "decoder/bds/bds60.py", "    if mach is not None and mach > 1:", "    if mach is not None and mach >= 1:")
+M("c12-roll", "C12", "decoder/bds/bds50.py", "    if (roll is not None) and abs(roll) > 50:", "    if (roll is not None) and abs(roll) > 45:")
+M("c12-empty", "C12", "decoder/bds/__init__.py", '    if common.allzeros(msg):\n        return "EMPTY"', '    if common.allzeros(msg) and df != 16:\n        return "EMPTY"')
+M("c12-both50", "C12", "decoder/bds/__init__.py", "        if abs(i60 - ias_) > 20:\n            return \"BDS50\"", "        if abs(i60 - ias_) > 20:\n            return \"BDS60\"")
+M("c12-temp44", "C12", "decoder/bds/bds44.py", "    if min(temp, temp2) > 60 or max(temp, temp2) < -80:", "    if min(temp, temp2) > 60 or max(temp, temp2) < -30:")
+M("c12-mrar", "C12", "decoder/bds/__init__.py", "        mask = [IS10, IS17, IS20, IS30, IS40, IS44, IS45, IS50, IS60]", "        mask = [IS10, IS17, IS20, IS30, IS40, IS45, IS44, IS50, IS60]")
